@@ -759,6 +759,13 @@ func (f *TimespanFormat) format(ts Timespan) string {
 }
 
 func (f *TimespanFormat) format2(b io.Writer, ts Timespan) {
+	if ts < 0 && ts != Timespan(math.MinInt64) {
+		// one leading sign (which the parser reads back), then the segments of the absolute value
+		if _, err := io.WriteString(b, `-`); err != nil {
+			panic(err)
+		}
+		ts = -ts
+	}
 	for _, s := range f.segments {
 		s.appendTo(b, ts)
 	}
@@ -1011,7 +1018,16 @@ func (s *secondSegment) ordinal() int {
 
 func (s *fragmentSegment) appendValue(buffer io.Writer, n int64) {
 	if !(s.useTotal || s.padChar == '0') {
-		n, _ = strconv.ParseInt(trimTrailingZeroes.ReplaceAllString(strconv.FormatInt(n, 10), `$1`), 10, 64)
+		// Strip trailing zeroes of the fraction. Its leading zeroes are significant: 0.05 seconds is `.05`, not `.5`
+		w := s.width
+		if w < 0 {
+			w = s.defaultWidth
+		}
+		digits := trimTrailingZeroes.ReplaceAllString(fmt.Sprintf(`%0*d`, w, n), `$1`)
+		if _, err := io.WriteString(buffer, digits); err != nil {
+			panic(err)
+		}
+		return
 	}
 	s.valueSegment.appendValue(buffer, n)
 }
